@@ -1438,9 +1438,12 @@ class GeoboxTiles:
             bbox = self._gbox.project(bbox.polygon).boundingbox
 
         def _clamp(span: Tuple[float, float], N: int):
-            a1, a2 = span
-            a1 = int(clamp(math.floor(a1), 0, N - 1))
-            a2 = int(clamp(math.ceil(a2), 1, N)) - 1
+            a1, a2 = (math.floor(span[0]), math.ceil(span[1]))
+            if a2 <= a1:
+                # zero size span sitting on a pixel edge touches pixels on both sides
+                a1, a2 = a1 - 1, a2 + 1
+            a1 = int(clamp(a1, 0, N - 1))
+            a2 = int(clamp(a2, 1, N)) - 1
             return a1, a2
 
         NY, NX = self._gbox.shape.yx
